@@ -118,6 +118,7 @@ const IDS: &[&str] = &["id:1", "x id:10 y", "id:9", "  id:10", "nomatch", "", "i
 const KS: &[&str] = &["ka", "kb", "kab", " ka", "kB", "k", "ka b"];
 const PINS: &[&str] = &["p:b", "a", "p:a", "c", "", "p:", " a", "p:c", "b"];
 const TRAIL: &[&str] = &["a 2", "b 10", "c 9", "d 10", "", "x", "  e 2"];
+const TINY: &[&str] = &["0.0000000000000003", "0.0000000000000001", "1", "1.0000000000000002", "0", "-0.0000000000000002"];
 const DIRS: &[Option<&str>] = &[None, Some(""), Some("asc"), Some("ASC"), Some("desc"), Some("Desc")];
 
 pub fn enumerated(max_len: usize, batch: usize) -> Vec<KsBatch> {
@@ -139,6 +140,8 @@ pub fn enumerated(max_len: usize, batch: usize) -> Vec<KsBatch> {
         (Some("^p:(?P<value>[a-z]+)$|^[a-z]+$"), None, PINS),
         // a pattern anchored at the line end (CRLF batches: the terminator is not part of the line)
         (Some("[0-9]+$"), Some("numeric"), TRAIL),
+        // numbers one unit in the last place apart, or below every plausible tolerance: still strictly ordered
+        (None, Some("numeric"), TINY),
     ];
     let mut specs = vec![];
     for len_cap in 0..=max_len {
@@ -248,7 +251,7 @@ pub fn random_batch() -> BoxedStrategy<KsBatch> {
 }
 
 pub fn run(run: &mut Run) {
-    run.rule = "enumerated: every line sequence of length 0..k (k=4 quick, 5 thorough) over per-configuration alphabets (ordered/equal/prefix-related/indented/blank/numeric-looking and zero-padded lines) x 6 direction spellings x 12 (pattern, format) configurations (one with a `value` group that takes part in only one branch of an alternation) (the `value` group in both spellings, `(?P<value>…)` and `(?<value>…)`) (two of them with patterns that can match the empty string, so that matching lines with an empty key occur), batched into one file per 400 blocks and run through the real CLI; random: blocks of 6..120 lines (sorted then perturbed by 0..3 swaps; Unicode words; nested block tag lines as keys; numeric with/without pattern). Non-trivial block = at least 2 keys and (an equal or prefix-related adjacent pair, or a skipped line); distinct by (batch, block).".into();
+    run.rule = "enumerated: every line sequence of length 0..k (k=4 quick, 5 thorough) over per-configuration alphabets (ordered/equal/prefix-related/indented/blank/numeric-looking and zero-padded lines) x 6 direction spellings x 13 (pattern, format) configurations (one over numbers a unit in the last place apart) (one with a `value` group that takes part in only one branch of an alternation) (the `value` group in both spellings, `(?P<value>…)` and `(?<value>…)`) (two of them with patterns that can match the empty string, so that matching lines with an empty key occur), batched into one file per 400 blocks and run through the real CLI; random: blocks of 6..120 lines (sorted then perturbed by 0..3 swaps; Unicode words; nested block tag lines as keys; numeric with/without pattern). Non-trivial block = at least 2 keys and (an equal or prefix-related adjacent pair, or a skipped line); distinct by (batch, block).".into();
     run.assumptions = vec![
         "content lines are shell/ruby words, which tree-sitter parses without touching the tag comments (block discovery itself is C03)".into(),
         "numeric keys are plain finite decimals; regexes come from a fixed family with hand-written extractors".into(),
